@@ -1,9 +1,11 @@
 """C13 -- client faults are contained; teardown happens once, on the I/O thread only.
 
 Decided by: machine-checked invariants over all schedules and all fault
-placements of the narrow model coq/Model/ChanFault.v (Props/C13.v: C13_workers,
-C13_loop_partial / _refuted / _repaired, C13_listener_partial / _refuted,
-C13_once_partial / _refuted / _repaired), tied to the code by
+placements of the narrow model coq/Model/ChanFault.v (Props/C13.v: C13_loop,
+C13_listener, C13_once for the configurations that have the two knob values read
+from the source on THIS run -- coq/Gen/GenChanKnobs.v, written by this check before
+the build, worst values when the source's shape is not understood -- C13_workers,
+the per-knob and partial forms, the isolation step theorems), tied to the code by
   (a) a shape audit: the ast signature (try/except ladders, lock scopes, flag
       tests, the calls that tear down, the do_close arguments, _DISCONNECTED) of
       every method the model transliterates, against the signature the model was
@@ -18,8 +20,12 @@ C13_once_partial / _refuted / _repaired), tied to the code by
   (c) the property's monitor on the real traces: all single (quick) and double
       (thorough) fault placements over the socket calls of small scenarios x
       seeded random / PCT / bounded exhaustive schedules.
-Findings F17 and F18 are reproduced on the real code on every run and reported as
-known findings of their narrow classes; anything outside is a violation."""
+Findings F17 and F18 are repaired in /repo (8a2ea3a, da3bf3a): a regression of either
+flips a knob (Props/C13.v stops compiling), changes the audited shape, and is found by
+the search (listener closed / teardown by a worker / loop death, with scenario+schedule).
+The other half of F18 -- the I/O thread flushing unlocked while the worker flushes inside
+send_continue (duplicate send, negative total_outbufs_len) -- is C04's subject: the model
+contains it, the C13 monitor has no clause about it."""
 import errno
 import hashlib
 import itertools
@@ -39,8 +45,6 @@ ASSUMPTIONS = [
     "the shape audit keys on the statements listed in harness/chanfault.WATCH_*; code between two scheduling points touches only what the audit lists",
 ]
 
-KF_INIT = "kf_c13_channel_init_oserror"
-KF_WCONT = "kf_c13_worker_send_continue_close"
 
 
 def _errno_name(e):
@@ -51,6 +55,11 @@ def run(ctx):
     from harness import chanfault as H
     from harness.sched import RandomPolicy, PCTPolicy, explore
 
+    # the two knobs of the model, regenerated from the source before anything is built
+    with vcommon.Lock("gen"):
+        wc_close, init_guarded, knob_problems = H.write_knobs(src_dir_of(), os.path.join(vcommon.COQ, "Gen", "GenChanKnobs.v"))
+    ctx.oblige("the knobs of the model are read off the source (service()/send_continue() do_close; handle_accept's try)",
+               not knob_problems, "; ".join(knob_problems))
     ctx.gate()
     props_ok, failing, log = ctx.props()
     ctx.build(["Proof/ChanFaultSpec.vo"])
@@ -64,15 +73,7 @@ def run(ctx):
 
     # ---- (a) shape audit ---------------------------------------------------------
     diff, sig = H.shape_audit(src)
-    try:
-        wc_close = H.detect_wc_close(src)
-        wc_err = ""
-    except ValueError as e:
-        wc_close, wc_err = True, str(e)
-    try:
-        init_guarded = H.detect_init_guarded(src)
-    except ValueError as e:
-        init_guarded, wc_err = False, (wc_err + " " + str(e)).strip()
+    wc_err = "; ".join(knob_problems)
     ctx.oblige("shape audit: the modelled methods of wasyncore/channel/server/trigger/task have the statements the model transliterates",
                not diff and not wc_err, "; ".join(diff) + (" | " + wc_err if wc_err else ""))
     if diff or wc_err:
@@ -129,20 +130,15 @@ def run(ctx):
         if pls or teardown:
             nontrivial.add((scn, tuple(pls), kind, hashlib.sha1(repr([e for e in w.sched.events if e[1] in (
                 "hclose", "close", "map_del", "act_del", "wire", "io_loop_died")]).encode()).hexdigest()[:12]))
+        if wcont:
+            stats["in_f18_class"] += 1
         if problems:
-            if wcont and wc_close:
-                stats["in_f18_class"] += 1
-                if len(f18_seen) < 3 or ("loop_died" in labels and not any("loop_died" in x[0] for x in f18_seen)):
-                    f18_seen.append((labels, replay))
-                ctx.report("f18:" + ",".join(labels), "worker-side send_continue() tears the connection down: %r" % (problems[:3],),
-                           dict(replay, expected="no teardown by a worker, loop alive", observed=[list(map(str, p)) for p in problems[:6]]),
-                           kf_class=KF_WCONT)
-            else:
-                monitor_ok[0] = False
-                stats["problems_outside"] += 1
-                ctx.report("monitor:" + ",".join(labels) + ":" + scn,
-                           "C13 monitor: %r" % (problems[:4],),
-                           dict(replay, expected="no problems", observed=[list(map(str, p)) for p in problems[:6]], check="monitor"))
+            monitor_ok[0] = False
+            stats["problems_outside"] += 1
+            ctx.report("monitor:" + ",".join(labels) + ":" + scn,
+                       "C13 monitor: %r" % (problems[:4],),
+                       dict(replay, expected="no problems", observed=[list(map(str, p)) for p in problems[:6]], check="monitor",
+                            worker_side_send_continue=wcont))
         return w, problems
 
     # ---- (b)+(c) scenarios x fault placements x schedules ----------------------------
@@ -215,17 +211,11 @@ def run(ctx):
         exh["runs"] += r["runs"]
         exh["truncated"] = exh["truncated"] or r["truncated"]
 
-    # the loop-death consequence of F18: the stored schedule first, a seeded random search if it no longer shows it
-    died = [False]
-    if wc_close:
-        w, problems = one_run(H.F18_LOOP_DEATH_CASE, "stored", schedule=H.F18_LOOP_DEATH_SCHEDULE, pls=[("f18",)])
-        died[0] = any(p[0] == "loop_died" for p in problems)
-        tries = 0
-        while not died[0] and tries < (3000 if thorough else 400):
-            tries += 1
-            w, problems = one_run(H.F18_LOOP_DEATH_CASE, "random", policy=RandomPolicy(random.Random(rng.randrange(1 << 30)), stay=0.6),
-                                  conform=False, pls=[("f18",)])
-            died[0] = any(p[0] == "loop_died" for p in problems)
+    # regression input: the schedule on which F18 killed the I/O loop before its repair, and random schedules of that case
+    one_run(H.F18_LOOP_DEATH_CASE, "stored", schedule=H.F18_LOOP_DEATH_SCHEDULE, pls=[("f18",)])
+    for _ in range(300 if thorough else 40):
+        one_run(H.F18_LOOP_DEATH_CASE, "random", policy=RandomPolicy(random.Random(rng.randrange(1 << 30)), stay=0.6),
+                pls=[("f18",)])
 
     # ---- the listener world -----------------------------------------------------------
     lst_ok = [True]
@@ -246,20 +236,14 @@ def run(ctx):
                        dict(replay, expected="the model's labels and state", observed=d, check="conformance"))
         problems, setup_fault = H.listener_monitor(w, exps)
         nontrivial.add(("listener", tag, hashlib.sha1(repr(toks).encode()).hexdigest()[:12]))
+        if setup_fault:
+            stats["in_f17_class"] += 1
         if problems:
-            if setup_fault and not init_guarded:
-                stats["in_f17_class"] += 1
-                if len(f17_seen) < 3:
-                    f17_seen.append(replay)
-                ctx.report("f17:" + tag.split("/")[0], "an OSError in HTTPChannel.__init__ closes the listener: %r" % (problems[:2],),
-                           dict(replay, expected="listener and trigger stay in the socket map", observed=[list(map(str, p)) for p in problems]),
-                           kf_class=KF_INIT)
-            else:
-                lst_ok[0] = False
-                stats["problems_outside"] += 1
-                ctx.report("listener:" + tag, "C13 monitor (listener world): %r" % (problems[:3],),
-                           dict(replay, expected="listener and trigger stay in the socket map", observed=[list(map(str, p)) for p in problems],
-                                check="monitor"))
+            lst_ok[0] = False
+            stats["problems_outside"] += 1
+            ctx.report("listener:" + tag, "C13 monitor (listener world): %r" % (problems[:3],),
+                       dict(replay, expected="listener and trigger stay in the socket map", observed=[list(map(str, p)) for p in problems],
+                            check="monitor", setup_fault=setup_fault))
 
     setup_calls = ("setsockopt", "getsockopt", "setblocking")
     for call in setup_calls:
@@ -324,29 +308,27 @@ def run(ctx):
             d[k] = v
         ex.append(d)
     outside = sum(int(d.get("%s_bad_outside" % n, "1")) for d in ex for n in ("loop", "workers", "listener", "once"))
-    ctx.oblige("model explorer: no bad state outside the two finding classes", outside == 0, json.dumps(ex)[:600])
+    outside += sum(int(d.get("%s_bad_in_class" % n, "1")) for d in ex for n in ("loop", "workers", "listener", "once"))
+    ctx.oblige("model explorer (configuration read from the source): no bad state", outside == 0, json.dumps(ex)[:600])
     if outside:
-        wit = [d.get("%s_witness_outside" % n) for d in ex for n in ("loop", "workers", "listener", "once") if d.get("%s_witness_outside" % n)]
-        ctx.report("explorer-outside", "the model's explorer reaches a bad state outside the known-finding classes",
+        wit = [d.get("%s_witness_%s" % (n, k)) for d in ex for n in ("loop", "workers", "listener", "once")
+               for k in ("outside", "in_class") if d.get("%s_witness_%s" % (n, k))]
+        ctx.report("explorer-bad", "the model's explorer reaches a bad state in the configuration the source has",
                    {"failing_input_found": True, "world": "model", "witness_tokens": wit[:2]})
 
     # ---- obligations -------------------------------------------------------------------------
     ctx.oblige("K-chanfault: every scheduling block of every real run is a step sequence of the model with the same labels and abstract state",
                conform_ok[0], "%d disagreements" % stats["conform_bad"])
-    ctx.oblige("C13 monitor on the real traces: no problem outside the known-finding classes (scheduler world)", monitor_ok[0])
-    ctx.oblige("C13 monitor on the real traces: listener and trigger stay polled outside F17 (listener world)", lst_ok[0])
-    if wc_close:
-        ctx.oblige("F18 is reproduced on the real code (worker-side teardown; loop death through select EBADF)",
-                   stats["in_f18_class"] > 0 and died[0], "runs in class: %d, loop death shown: %s" % (stats["in_f18_class"], died[0]))
-    if not init_guarded:
-        ctx.oblige("F17 is reproduced on the real code (listener closed by an OSError in HTTPChannel.__init__)",
-                   stats["in_f17_class"] > 0 or not _f17_open(), "runs in class: %d" % stats["in_f17_class"])
+    ctx.oblige("C13 monitor on the real traces: no problem (scheduler world)", monitor_ok[0])
+    ctx.oblige("C13 monitor on the real traces: listener and trigger stay polled (listener world)", lst_ok[0])
+    ctx.oblige("the search exercises the repaired paths (worker-side send_continue; errno in HTTPChannel.__init__)",
+               stats["in_f18_class"] > 0 and stats["in_f17_class"] > 0,
+               "runs with worker-side send_continue: %d, listener runs with a set-up fault: %d" % (stats["in_f18_class"], stats["in_f17_class"]))
 
     if not props_ok and not ctx.violations:
         ctx.report("c13-proof-broken", "Props/C13.v no longer checks (%s)" % failing,
                    {"failing_input_found": False, "broken": "Props/C13.v via %s" % failing, "log_tail": (log or "")[-1500:]})
 
-    loop_died_real = bool(died[0])
     ctx.coverage.update({
         "evaluations": stats["runs"] + stats["listener_runs"],
         "distinct_nontrivial": len(nontrivial),
@@ -357,7 +339,7 @@ def run(ctx):
                 "setblocking, faults on one of two connections, seeded random event histories. Non-trivial = distinct (scenario, placement, "
                 "schedule kind, teardown/wire event sequence) with a fault placed or a teardown observed" % (
                     len(names), "6" if thorough else "1", "400" if thorough else "12"),
-        "samples": samples + [{"f18_replay": f18_seen[0][1]} if f18_seen else {}, {"f17_replay": f17_seen[0]} if f17_seen else {}],
+        "samples": samples,
         "traces_validated_against_impl": stats["runs"] + stats["listener_runs"] - stats["conform_bad"],
         "model_steps_validated": stats["tokens"],
         "states": sum(int(d.get("states", 0)) for d in ex),
@@ -369,17 +351,16 @@ def run(ctx):
         "scenarios": stats["scenarios"],
         "verdicts": stats["verdicts"],
         "runs_with_handle_close_entered_twice_on_io_thread": stats.get("double_handle_close_on_io", 0),
-        "runs_in_f18_class": stats["in_f18_class"],
-        "runs_in_f17_class": stats["in_f17_class"],
-        "f18_loop_death_observed_on_real_code": loop_died_real,
+        "runs_with_worker_side_send_continue": stats["in_f18_class"],
+        "listener_runs_with_setup_fault": stats["in_f17_class"],
         "wc_close_read_from_source": wc_close,
         "init_guarded_read_from_source": init_guarded,
         "shape_digest": H.shape_digest(sig),
     })
 
 
-def _f17_open():
-    return any(k.get("class") == KF_INIT for k in vcommon.known_findings("C13"))
+def src_dir_of():
+    return vcommon.SRC
 
 
 def replay(data):
